@@ -82,7 +82,9 @@ def generate(seed, batch):
     scen['shell']['pdT'] = rng.random() < 0.75
     scen['shell']['uTM'] = rng.choice([0.0, rng.uniform(-0.5, 0.5)])
     # re-definition between two evaluations at the same state (caches must follow the definition)
-    scen['redefine'] = rng.choice([None, None, 'imperfection', 'imperfection_off', 'grid', 'method', 'inc', 'material', 'geometry'])
+    scen['redefine'] = rng.choice([None, None, 'imperfection', 'imperfection_off', 'grid', 'method', 'inc', 'material', 'geometry', 'prescribed', 'prescribed'])
+    scen['redef_fint_first'] = rng.random() < 0.5
+    scen['full_vector'] = rng.random() < 0.25
     scen['redef_seed'] = rng.getrandbits(32)
     return scen
 
@@ -107,6 +109,10 @@ def shrink_candidates(scen):
     if scen.get('redefine'):
         c = copy.deepcopy(scen)
         c['redefine'] = None
+        yield c
+    if scen.get('full_vector'):
+        c = copy.deepcopy(scen)
+        c['full_vector'] = False
         yield c
     if scen.get('inc', 1.0) != 1.0:
         c = copy.deepcopy(scen)
@@ -334,6 +340,32 @@ def execute(scen):
         # non-linear part of the tangent does not vanish there)
         j5_at(zero, kT_of(zero), 'zero state')
         bump(res['probes'], 'J5_checked')
+        # ---- J8: the same state handed over as a FULL amplitude vector (prescribed entries included, scaled by inc
+        #      inside) gives the same tangent / internal force, repeatably, and the caller's vector is not touched
+        if scen.get('full_vector'):
+            ck = np.array(cc.excluded_dofs_ck, dtype=float)
+            cfull = np.zeros(size)
+            mask = np.ones(size, dtype=bool)
+            mask[list(cc.excluded_dofs)] = False
+            cfull[mask] = c
+            cfull[list(cc.excluded_dofs)] = ck
+            cfull = np.ascontiguousarray(cfull)
+            fsha = sha_bytes(cfull.tobytes())
+            inc1 = scen['inc']
+            kT_f = cc.calc_kT(cfull, inc=inc1, silent=True).toarray()
+            f_f1 = np.array(cc.calc_fint(cfull, inc=inc1, silent=True), dtype=float)
+            f_f2 = np.array(cc.calc_fint(cfull, inc=inc1, silent=True), dtype=float)
+            if sha_bytes(cfull.tobytes()) != fsha:
+                raise Violation('J0-inputs', dict(ctx, why='a full-size amplitude vector passed in was modified (prescribed entries rescaled in place)'))
+            if f_f1.tobytes() != f_f2.tobytes():
+                raise Violation('J8-full-vector', dict(ctx, why='two evaluations of fint for the same full-size vector differ'))
+            for nm, a, b in (('kT', kT_f, kT), ('fint', f_f1, fint_c)):
+                sc = np.abs(b).max()
+                if not (np.abs(a - b).max() <= 1e-10 * sc):
+                    raise Violation('J8-full-vector', dict(ctx, quantity=nm, maxdiff=float(np.abs(a - b).max()), scale=float(sc),
+                                                           why='full-size and reduced amplitude vectors of the same state give different results'))
+            bump(res['probes'], 'J8_full_vector_checked')
+            res['steps'] += 3
         # ---- J7: re-definition between evaluations at the same state: the long-lived object must agree with a
         #      freshly built shell of the new definition (no stale cached matrices)
         rd = scen.get('redefine')
@@ -383,9 +415,19 @@ def execute(scen):
                 scen2['shell']['r2'] = sh['r2'] * 1.2
                 cc.r2 = scen2['shell']['r2']
                 cc.r1 = None
+            elif rd == 'prescribed':
+                scen2['shell']['thetaTdeg'] = sh.get('thetaTdeg', 0.0) + 1.5
+                scen2['shell']['betadeg'] = sh.get('betadeg', 0.0) + 0.4
+                scen2['shell']['uTM'] = sh.get('uTM', 0.0) + 0.3
+                cc.thetaTdeg, cc.betadeg, cc.uTM = scen2['shell']['thetaTdeg'], scen2['shell']['betadeg'], scen2['shell']['uTM']
             inc2 = scen2['inc']
-            kT_old = cc.calc_kT(c, inc=inc2, silent=True).toarray()
-            f_old = np.array(cc.calc_fint(c, inc=inc2, silent=True), dtype=float)
+            if scen.get('redef_fint_first'):
+                # the internal force is asked first after the re-definition (nothing else has rebuilt the object yet)
+                f_old = np.array(cc.calc_fint(c, inc=inc2, silent=True), dtype=float)
+                kT_old = cc.calc_kT(c, inc=inc2, silent=True).toarray()
+            else:
+                kT_old = cc.calc_kT(c, inc=inc2, silent=True).toarray()
+                f_old = np.array(cc.calc_fint(c, inc=inc2, silent=True), dtype=float)
             if rd in ('material', 'geometry'):
                 # the linear matrices of a ConeCyl are cached until _clear_matrices(); what C17 demands of the
                 # long-lived object after such a re-definition is that tangent and internal force stay consistent
